@@ -245,7 +245,7 @@ CHECKS = {
                         "collection of the executor are outside the scenario family"],
     },
     "C08": {
-        "extra_props": ["Props/C08_src.v"],
+        "extra_props": ["Props/C08_src.v", "Props/C08_ir.v"],
         "module": "p_c08",
         "gen_lemmas": [],
         "rule": "seeded random scenarios (1-5 submissions, 0-2 cancel() per future and 0-2 notify() from 1-3 client threads at "
